@@ -18,6 +18,11 @@ def rsum(fn, n):
 # ------------------------------------------------------------------ C05
 @contract
 class PoissonJointLL:
+    # concrete inputs for the replay of an open obligation (conventions of rt/oracles_contracts.poisson_joint_ll): an event in a
+    # bin of rate 0 (log-rate -inf) must make the joint log-likelihood -inf; ordinary finite inputs
+    directed = staticmethod(lambda: [('poisson_joint_ll', dict(target_event_log_rates=[-1.0, float('-inf'), 0.5], target_observations=[1, 1, 0], n_fore=2.0)),
+                                     ('poisson_joint_ll', dict(target_event_log_rates=[-1.0, -2.5, 0.5], target_observations=[1, 3, 0], n_fore=2.0)),
+                                     ('poisson_joint_ll', dict(target_event_log_rates=[], target_observations=[], n_fore=0.5))])
     qualname = 'csep.utils.stats.poisson_joint_log_likelihood_ndarray'
     case = '1-d arrays'
     oracle = 'poisson_joint_ll'
